@@ -66,6 +66,7 @@ inductive CTerm where
   | delay (th : Script) (body : CTerm)
   | combine (a b : CTerm)
   | loop (c : Option CCond) (p : Option Script) (body : CTerm)
+  | twice (a : CTerm)               -- v := a; Combine(v, v): one Seq value run twice (a value has no state)
   | ite (c : CCond) (a b : CTerm)   -- Delay(func() Seq { if c() { return a }; return b }): a state-dependent branch
 deriving Repr
 
@@ -99,6 +100,7 @@ def build : CTerm → Store → Term Store Int String
         (fun st' => th.store "t" 0 st')
   | .combine a b, st => .combine (build a st) (build b st)
   | .loop c p body, st => .loop (c.map CCond.fn) (p.map postFn) (build body st)
+  | .twice a, st => .combine (build a st) (build a st)
   | .ite c a b, _ =>
       .delay
         (fun st' => match c.fn st' with
